@@ -42,7 +42,7 @@ type params struct {
 }
 
 func (*prop) Cases(seed int64, tier string) []core.Case {
-	nc, n := 4, 1
+	nc, n := 8, 1
 	if tier == "thorough" {
 		nc, n = 32, 1
 	}
